@@ -8,7 +8,7 @@ from pyPRISM.core.Diameter import Diameter
 RULE = ("random assignment histories (1-4 types, single keys and lists/tuples/arrays of keys, re-assignment, "
         "ints and floats) applied to a real Density/Diameter and to the Lean model; after EVERY op all observables "
         "(value table, total, pair & site matrices, sigma table via both access paths, volume, check()) are compared "
-        "bit-exactly (volume: rtol 4e-16 — pow vs repeated product) and the property predicate is evaluated from an independent history replay; "
+        "bit-exactly (volume: rtol 1e-14 — pow vs repeated product) and the property predicate is evaluated from an independent history replay; "
         "a case is non-trivial if it has >= 2 ops and touches >= 1 type twice or uses a list key; distinct = distinct (types, op list)")
 EXTRA_TRUSTED = ["Model/Density.lean is a hand transcription of Density.__setitem__/Diameter.__setitem__/check"]
 ASSUMPTIONS = ["assigned values are finite positive numbers; type names are those of the type list"]
@@ -70,7 +70,7 @@ def suite_history(ctx, case):
         # ---- correspondence
         ctx.corr('history', sub, drv.ask('dens.obs'), obs_dens(dens, n, types), what='Density after op %d' % k)
         line, same = obs_diam(diam, n, types)
-        ctx.corr('history', sub, drv.ask('diam.obs'), line, rtol=4e-16, what='Diameter after op %d' % k)
+        ctx.corr('history', sub, drv.ask('diam.obs'), line, rtol=1e-14, what='Diameter after op %d' % k)
         # ---- property predicate straight on the implementation (independent replay of the history)
         ok = True; why = ''
         for a in range(n):
